@@ -182,7 +182,17 @@ func (p *c03) RunCase(ctx *runner.Ctx) runner.CaseResult {
 	shape := []string{}
 	created := map[string]bool{}
 	if !late {
-		created["gsi1"], created["gsi2"] = true, true
+		created["gsi1"], created["gsi2"], created["gsi4"] = true, true, true
+	}
+	ixDefs := map[string]adapt.IndexSpec{"gsi1": {Name: "gsi1", Hash: "g"}, "gsi2": {Name: "gsi2", Hash: "g", Range: "s"}, "gsi4": {Name: "gsi4", Hash: "r", Range: "h"}}
+	existing := func() []string {
+		out := []string{}
+		for _, n := range []string{"gsi1", "gsi2", "gsi4"} {
+			if created[n] {
+				out = append(out, n)
+			}
+		}
+		return out
 	}
 	for i := 0; i < n; i++ {
 		var op adapt.Op
@@ -202,6 +212,36 @@ func (p *c03) RunCase(ctx *runner.Ctx) runner.CaseResult {
 		case k == 5 && created["gsi1"] && late:
 			op = adapt.Op{Kind: adapt.OpUpdateTable, Table: spec.Name, Chg: []adapt.IndexChange{{Delete: "gsi1"}}}
 			created["gsi1"] = false
+		case k == 6 && len(existing()) > 0:
+			// a REJECTED request with several index changes: existing indexes are deleted (and possibly one is
+			// created) before the last change fails - the request must leave every index as it was
+			chg := []adapt.IndexChange{}
+			for _, n := range existing() {
+				if r.Intn(2) == 0 || len(chg) == 0 {
+					chg = append(chg, adapt.IndexChange{Delete: n})
+				}
+			}
+			if !created["gsi1"] && r.Intn(2) == 0 {
+				d := ixDefs["gsi1"]
+				chg = append(chg, adapt.IndexChange{Create: &d})
+			}
+			chg = append(chg, adapt.IndexChange{Delete: "nosuchindex"})
+			op = adapt.Op{Kind: adapt.OpUpdateTable, Table: spec.Name, Chg: chg}
+		case k == 7 && len(existing()) > 0:
+			// an index is dropped and NOT re-created for a while (also the "inverted" one that shares its key
+			// attributes with the table's primary key); it may come back later through the creation branches
+			n := mon.Pick(r, existing())
+			op = adapt.Op{Kind: adapt.OpUpdateTable, Table: spec.Name, Chg: []adapt.IndexChange{{Delete: n}}}
+			created[n] = false
+		case k == 8 && !created["gsi4"]:
+			d := ixDefs["gsi4"]
+			op = adapt.Op{Kind: adapt.OpUpdateTable, Table: spec.Name, Chg: []adapt.IndexChange{{Create: &d}}}
+			created["gsi4"] = true
+		case k == 9 && len(existing()) > 0:
+			// replace an index in ONE request: delete + create under the same name (backfill of a fresh index)
+			n := mon.Pick(r, existing())
+			d := ixDefs[n]
+			op = adapt.Op{Kind: adapt.OpUpdateTable, Table: spec.Name, Chg: []adapt.IndexChange{{Delete: n}, {Create: &d}}}
 		default:
 			op = ixRandomWrite(r, spec.Name, i)
 		}
